@@ -96,4 +96,366 @@ theorem Refines.flatMapR {α β : Type} {f1 f2 : α → R (List β)} (h : ∀ x,
     rw [flatMapR_eq_bind, flatMapR_eq_bind]
     exact Refines.bind (h x) fun y => Refines.bind ih fun ys => Refines.refl _
 
+/-! ### one lemma per interpreter function -/
+
+section
+variable {e1 e2 : Env} (h : EnvRefines e1 e2)
+include h
+
+theorem EnvRefines.arg_eq (n : Name) : e1.arg n = e2.arg n := by
+  unfold Env.arg; rw [h.args]
+
+theorem coerceIfNeeded_refines (v : IRVertex) (ctxs : List Ctx) :
+    Refines (coerceIfNeeded e1 v ctxs) (coerceIfNeeded e2 v ctxs) := by
+  unfold coerceIfNeeded
+  split
+  · exact .refl _
+  · simp only [R.bind_eq_bind, R.pure_eq_ok]
+    exact Refines.filterMapR (fun c => Refines.bind (h.coerce ..) fun _ => .refl _) _
+
+theorem computeLocalField_refines (vid : Vid) (t f : Name) (ctxs : List Ctx) :
+    Refines (computeLocalField e1 vid t f ctxs) (computeLocalField e2 vid t f ctxs) := by
+  unfold computeLocalField
+  simp only [R.bind_eq_bind, R.pure_eq_ok]
+  exact Refines.mapR (fun c => Refines.bind (h.prop ..) fun _ => .refl _) _
+
+theorem tagValue_refines (comp : Component) (cur : Vid) (r : FieldRef) (c : Ctx) :
+    Refines (tagValue e1 comp cur r c) (tagValue e2 comp cur r c) := by
+  unfold tagValue
+  split
+  · split
+    · simp only [R.bind_eq_bind, R.pure_eq_ok]
+      exact Refines.bind (.refl _) fun t => Refines.bind (h.prop ..) fun _ => .refl _
+    · split
+      · split
+        · simp only [R.bind_eq_bind, R.pure_eq_ok]
+          exact Refines.bind (h.prop ..) fun _ => .refl _
+        · exact .refl _
+      · exact .refl _
+  · exact .refl _
+
+theorem applyFilter_refines (comp : Component) (cur : Vid) (f : IRFilter) (ctxs : List Ctx) :
+    Refines (applyFilter e1 comp cur f ctxs) (applyFilter e2 comp cur f ctxs) := by
+  unfold applyFilter
+  rw [h.regex]
+  simp only [h.arg_eq]
+  split
+  · exact .refl _
+  · exact .refl _
+  · simp only [R.bind_eq_bind, R.pure_eq_ok]
+    exact Refines.filterMapR (fun c => Refines.bind (tagValue_refines h ..) fun _ => .refl _) _
+  · exact .refl _
+
+theorem applyLocalFieldFilter_refines (comp : Component) (vid : Vid) (f : IRFilter) (ctxs : List Ctx) :
+    Refines (applyLocalFieldFilter e1 comp vid f ctxs) (applyLocalFieldFilter e2 comp vid f ctxs) := by
+  unfold applyLocalFieldFilter
+  split
+  · exact Refines.bind (.refl _) fun t =>
+      Refines.bind (computeLocalField_refines h ..) fun _ => applyFilter_refines h ..
+  · exact .refl _
+
+theorem applyLocalFilters_refines (comp : Component) (vid : Vid) (fs : List IRFilter) (ctxs : List Ctx) :
+    Refines (applyLocalFilters e1 comp vid fs ctxs) (applyLocalFilters e2 comp vid fs ctxs) := by
+  induction fs generalizing ctxs with
+  | nil => exact .refl _
+  | cons f fs ih =>
+    simp only [applyLocalFilters]
+    exact Refines.bind (applyLocalFieldFilter_refines h ..) fun c => ih c
+
+theorem enterVertex_refines (comp : Component) (v : IRVertex) (ctxs : List Ctx) :
+    Refines (enterVertex e1 comp v ctxs) (enterVertex e2 comp v ctxs) := by
+  unfold enterVertex
+  exact Refines.bind (coerceIfNeeded_refines h ..) fun _ =>
+    Refines.bind (applyLocalFilters_refines h ..) fun _ => .refl _
+
+theorem expandNonRecursive_refines (t : Name) (e : IREdge) (ctxs : List Ctx) :
+    Refines (expandNonRecursive e1 t e ctxs) (expandNonRecursive e2 t e ctxs) := by
+  unfold expandNonRecursive
+  simp only [R.bind_eq_bind, R.pure_eq_ok]
+  exact Refines.flatMapR (fun c => Refines.bind (.refl _) fun _ =>
+    Refines.bind (h.nbrs ..) fun _ => .refl _) _
+
+theorem recExpandLevel_refines (e : IREdge) (t : Name) (ps : List PCtx) :
+    Refines (recExpandLevel e1 e t ps) (recExpandLevel e2 e t ps) := by
+  unfold recExpandLevel
+  simp only [R.bind_eq_bind, R.pure_eq_ok]
+  refine Refines.flatMapR (fun p => ?_) _
+  cases p with
+  | mk c piggy => exact Refines.bind (h.nbrs ..) fun _ => .refl _
+
+theorem recCoerceLevel_refines (e : IREdge) (t to : Name) (ps : List PCtx) :
+    Refines (recCoerceLevel e1 e t to ps) (recCoerceLevel e2 e t to ps) := by
+  unfold recCoerceLevel
+  simp only [R.bind_eq_bind, R.pure_eq_ok]
+  refine Refines.mapR (fun p => ?_) _
+  cases p with
+  | mk c piggy => exact Refines.bind (h.coerce ..) fun _ => .refl _
+
+theorem recLevels_refines (e : IREdge) (et rf : Name) (ct : Option Name) (k : Nat) (ps : List PCtx) :
+    Refines (recLevels e1 e et rf ct k ps) (recLevels e2 e et rf ct k ps) := by
+  induction k generalizing ps with
+  | zero => exact .refl _
+  | succ k ih =>
+    simp only [recLevels]
+    refine Refines.bind ?_ fun ps' => Refines.bind (recExpandLevel_refines h ..) fun ps'' => ih ps''
+    cases ct with
+    | none => exact .refl _
+    | some t => exact recCoerceLevel_refines h ..
+
+theorem recFinish_refines (e : IREdge) (r : Recursive) (fromV toV : IRVertex) (init : List Ctx) :
+    Refines (recFinish e1 e r fromV toV init) (recFinish e2 e r fromV toV init) := by
+  unfold recFinish
+  exact Refines.bind (recExpandLevel_refines h ..) fun _ =>
+    Refines.bind (recLevels_refines h ..) fun _ => .refl _
+
+theorem expandRecursive_refines (e : IREdge) (r : Recursive) (fromV toV : IRVertex) (ctxs : List Ctx) :
+    Refines (expandRecursive e1 e r fromV toV ctxs) (expandRecursive e2 e r fromV toV ctxs) := by
+  unfold expandRecursive
+  exact Refines.bind (.refl _) fun _ => recFinish_refines h ..
+
+theorem expandEdge_refines (comp : Component) (e : IREdge) (ctxs : List Ctx) :
+    Refines (expandEdge e1 comp e ctxs) (expandEdge e2 comp e ctxs) := by
+  unfold expandEdge
+  split
+  · refine Refines.bind ?_ fun _ => enterVertex_refines h ..
+    cases e.recursive with
+    | none => exact expandNonRecursive_refines h ..
+    | some r => exact expandRecursive_refines h ..
+  · exact .refl _
+
+theorem maxLimitOf_eq (f : IRFilter) : maxLimitOf e1 f = maxLimitOf e2 f := by
+  unfold maxLimitOf
+  simp only [h.arg_eq]
+
+theorem maxFoldLimit_eq (fs : List IRFilter) (acc : Option Nat) :
+    maxFoldLimit e1 fs acc = maxFoldLimit e2 fs acc := by
+  induction fs generalizing acc with
+  | nil => rfl
+  | cons f fs ih => simp only [maxFoldLimit, maxLimitOf_eq h, ih]
+
+theorem minLimitOf_eq (f : IRFilter) : minLimitOf e1 f = minLimitOf e2 f := by
+  unfold minLimitOf
+  simp only [h.arg_eq]
+
+theorem minFoldLimit_eq (fs : List IRFilter) (acc : Option Nat) :
+    minFoldLimit e1 fs acc = minFoldLimit e2 fs acc := by
+  induction fs generalizing acc with
+  | nil => rfl
+  | cons f fs ih => simp only [minFoldLimit, minLimitOf_eq h, ih]
+
+theorem effectiveMinLimit_eq (parent : Component) (fold : Fold) :
+    effectiveMinLimit e1 parent fold = effectiveMinLimit e2 parent fold := by
+  unfold effectiveMinLimit
+  simp only [minFoldLimit_eq h]
+
+theorem foldLimits_eq (parent : Component) (fold : Fold) :
+    foldLimits e1 parent fold = foldLimits e2 parent fold := by
+  unfold foldLimits
+  simp only [h.useLimits, maxFoldLimit_eq h, effectiveMinLimit_eq h]
+
+
+theorem importTag_refines (parent : Component) (r : FieldRef) (c : Ctx) :
+    Refines (importTag e1 parent r c) (importTag e2 parent r c) := by
+  unfold importTag
+  split
+  · split
+    · exact .refl _
+    · simp only [R.bind_eq_bind, R.pure_eq_ok]
+      exact Refines.bind (.refl _) fun _ => Refines.bind (h.prop ..) fun _ => .refl _
+  · exact .refl _
+
+theorem importTags_refines (parent : Component) (rs : List FieldRef) (c : Ctx) :
+    Refines (importTags e1 parent rs c) (importTags e2 parent rs c) := by
+  induction rs generalizing c with
+  | nil => exact .refl _
+  | cons r rs ih =>
+    simp only [importTags]
+    exact Refines.bind (importTag_refines h ..) fun c' => ih c'
+
+theorem applyPostFilter_refines (parent : Component) (fold : Fold) (f : IRFilter) (c : Ctx) :
+    Refines (applyPostFilter e1 parent fold f c) (applyPostFilter e2 parent fold f c) := by
+  unfold applyPostFilter
+  split
+  · simp only [R.bind_eq_bind, R.pure_eq_ok]
+    exact Refines.bind (applyFilter_refines h ..) fun _ => .refl _
+  · exact .refl _
+  · exact .refl _
+
+theorem applyPostFilters_refines (parent : Component) (fold : Fold) (fs : List IRFilter) (c : Ctx) :
+    Refines (applyPostFilters e1 parent fold fs c) (applyPostFilters e2 parent fold fs c) := by
+  induction fs generalizing c with
+  | nil => exact .refl _
+  | cons f fs ih =>
+    simp only [applyPostFilters, R.bind_eq_bind, R.pure_eq_ok]
+    refine Refines.bind (applyPostFilter_refines h ..) fun o => ?_
+    cases o with
+    | none => exact .refl _
+    | some c' => exact ih c'
+
+theorem foldOutputColumn_refines (comp : Component) (o : OutputDef) (es : List Ctx) :
+    Refines (foldOutputColumn e1 comp o es) (foldOutputColumn e2 comp o es) := by
+  unfold foldOutputColumn
+  refine Refines.bind (.refl _) fun t => Refines.mapR (fun c => ?_) _
+  split
+  · exact h.prop ..
+  · exact .refl _
+
+theorem foldOutputs_refines (fold : Fold) (elems : Option (List Ctx)) :
+    Refines (foldOutputs e1 fold elems) (foldOutputs e2 fold elems) := by
+  unfold foldOutputs
+  split
+  · simp only [R.bind_eq_bind, R.pure_eq_ok]
+    refine Refines.bind (Refines.mapR (fun o => ?_) _) fun _ => .refl _
+    exact Refines.bind (foldOutputColumn_refines h ..) fun _ => .refl _
+  · exact .refl _
+
+theorem foldFinish_refines (parent : Component) (fold : Fold) (lim : Option Nat × Option Nat)
+    (c : Ctx) (computed : List Ctx) :
+    Refines (foldFinish e1 parent fold lim c computed) (foldFinish e2 parent fold lim c computed) := by
+  unfold foldFinish
+  have tail : ∀ c3o : Option Ctx, ∀ elems : Option (List Ctx),
+      Refines
+        (match c3o with
+          | some c3 => (foldOutputs e1 fold elems).bind fun news =>
+              (mergeFolded c3 news).bind fun c4 => R.ok (some c4)
+          | none => R.ok none)
+        (match c3o with
+          | some c3 => (foldOutputs e2 fold elems).bind fun news =>
+              (mergeFolded c3 news).bind fun c4 => R.ok (some c4)
+          | none => R.ok none) := by
+    intro c3o elems
+    cases c3o with
+    | none => exact .refl _
+    | some c3 => exact Refines.bind (foldOutputs_refines h ..) fun _ => .refl _
+  split
+  · exact .refl _
+  · dsimp only
+    split
+    · exact .refl _
+    · split
+      · exact .refl _
+      · simp only [R.bind_eq_bind, R.pure_eq_ok]
+        exact Refines.bind (.refl _) fun c2 =>
+          Refines.bind (applyPostFilters_refines h ..) fun o => tail o _
+
+/-! ### the mutual block, by induction on the fuel -/
+
+theorem foldOne_refines (k : Nat)
+    (ih : ∀ comp ctxs, Refines (computeComponent e1 k comp ctxs) (computeComponent e2 k comp ctxs))
+    (parent : Component) (fold : Fold) (t : Name) (lim : Option Nat × Option Nat) (c : Ctx) :
+    Refines (foldOne e1 k parent fold t lim c) (foldOne e2 k parent fold t lim c) := by
+  simp only [foldOne]
+  exact Refines.bind (h.nbrs ..) fun ns => Refines.bind (ih ..) fun _ => foldFinish_refines h ..
+
+theorem computeFold_refines (k : Nat)
+    (ih : ∀ comp ctxs, Refines (computeComponent e1 k comp ctxs) (computeComponent e2 k comp ctxs))
+    (parent : Component) (fold : Fold) (ctxs : List Ctx) :
+    Refines (computeFold e1 k parent fold ctxs) (computeFold e2 k parent fold ctxs) := by
+  simp only [computeFold]
+  cases parent.vertex? fold.fromVid with
+  | none => exact .refl _
+  | some fromV =>
+    simp only [foldLimits_eq h]
+    exact Refines.bind (Refines.mapR (fun c => importTags_refines h ..) _) fun _ =>
+      Refines.bind (.refl _) fun _ => Refines.bind (.refl _) fun lim =>
+        Refines.filterMapR (fun c => foldOne_refines h k ih ..) _
+
+theorem runStages_refines (k : Nat)
+    (ih : ∀ comp ctxs, Refines (computeComponent e1 k comp ctxs) (computeComponent e2 k comp ctxs))
+    (comp : Component) (stages : List Stage) (visited : List Vid) (ctxs : List Ctx) :
+    Refines (runStages e1 k comp stages visited ctxs) (runStages e2 k comp stages visited ctxs) := by
+  induction stages generalizing visited ctxs with
+  | nil => simp only [runStages]; exact .refl _
+  | cons st rest ihs =>
+    cases st with
+    | edge e =>
+      simp only [runStages]
+      exact Refines.bind (.refl _) fun v' => Refines.bind (expandEdge_refines h ..) fun c' => ihs v' c'
+    | fold f =>
+      simp only [runStages]
+      exact Refines.bind (.refl _) fun v' =>
+        Refines.bind (computeFold_refines h k ih ..) fun c' => ihs v' c'
+
+theorem computeComponent_refines (k : Nat) (comp : Component) (ctxs : List Ctx) :
+    Refines (computeComponent e1 k comp ctxs) (computeComponent e2 k comp ctxs) := by
+  induction k generalizing comp ctxs with
+  | zero => simp only [computeComponent]; exact .refl _
+  | succ k ih =>
+    simp only [computeComponent]
+    cases comp.vertex? comp.root with
+    | none => exact .refl _
+    | some rootV =>
+      exact Refines.bind (enterVertex_refines h ..) fun _ => Refines.bind (.refl _) fun st =>
+        runStages_refines h k ih ..
+
+/-! ### outputs and the top level -/
+
+theorem constructRow_refines (comp : Component) (c : Ctx) :
+    Refines (constructRow e1 comp c) (constructRow e2 comp c) := by
+  unfold constructRow
+  simp only [R.bind_eq_bind, R.pure_eq_ok]
+  refine Refines.bind (Refines.mapR (fun o => ?_) _) fun _ => .refl _
+  split
+  · exact Refines.bind (.refl _) fun _ => Refines.bind (h.prop ..) fun _ => .refl _
+  · exact .refl _
+
+theorem interpretFrom_refines (ir : IRQuery) (starts : List VertexId) :
+    Refines (interpretFrom e1 ir starts) (interpretFrom e2 ir starts) := by
+  unfold interpretFrom
+  exact Refines.bind (computeComponent_refines h ..) fun _ =>
+    Refines.mapR (fun c => constructRow_refines h ..) _
+
+/-- The interpreter is monotone in the adapter for `Refines`. -/
+theorem interpret_refines (ir : IRQuery) : Refines (interpret e1 ir) (interpret e2 ir) := by
+  unfold interpret
+  exact Refines.bind (h.start ..) fun _ => interpretFrom_refines h ..
+
+end
+
+/-! ### the checking adapter -/
+
+/-- The contract-checking adapter refines the table adapter call by call. -/
+theorem checked_envRefines (S : Frontend.SchemaView) (D : Data) (args : List (Name × Value)) :
+    EnvRefines (Env.checked S D args) (Env.ofData D args) where
+  args := rfl
+  regex := rfl
+  useLimits := rfl
+  start := by
+    intro edge ps vid
+    show Refines ((checkedAdapter S D).start edge ps vid) _
+    simp only [checkedAdapter]
+    split
+    · exact Refines.contract _ (by decide +kernel)
+    · split
+      · exact Refines.refl _
+      · exact Refines.contract _ (by decide +kernel)
+  prop := by
+    intro vid t f v
+    show Refines ((checkedAdapter S D).prop vid t f v) _
+    simp only [checkedAdapter]
+    repeat' split
+    all_goals first | exact Refines.refl _ | exact Refines.contract _ (by decide +kernel)
+  nbrs := by
+    intro eid t e ps v
+    show Refines ((checkedAdapter S D).nbrs eid t e ps v) _
+    simp only [checkedAdapter]
+    repeat' split
+    all_goals first | exact Refines.refl _ | exact Refines.contract _ (by decide +kernel)
+  coerce := by
+    intro vid t to v
+    show Refines ((checkedAdapter S D).coerce vid t to v) _
+    simp only [checkedAdapter]
+    repeat' split
+    all_goals first | exact Refines.refl _ | exact Refines.contract _ (by decide +kernel)
+
+/-- Under the checking adapter the interpreter gives exactly the result it gives under the plain
+table adapter, or fails with a `contract:` panic. -/
+theorem interpret_checked_refines (S : Frontend.SchemaView) (D : Data) (args : List (Name × Value))
+    (ir : IRQuery) :
+    Refines (interpret (Env.checked S D args) ir) (interpret (Env.ofData D args) ir) :=
+  interpret_refines (checked_envRefines S D args) ir
+
 end TF.Engine
+
+#print axioms TF.Engine.interpret_refines
+#print axioms TF.Engine.interpret_checked_refines
